@@ -5,6 +5,7 @@ import Gallia.Gen.C02Ctor
 import Gallia.Proofs.Lemmas.UdsRespFields
 import Gallia.Gen.C02Fields
 import Gallia.Proofs.Lemmas.UdsRespFromPdu
+import Gallia.Proofs.Lemmas.UdsRespExposes
 /-
   C02 — Decoded UDS responses expose the received fields and re-encode to the same bytes.
   Property theorems only; helper lemmas are in `Proofs/Lemmas/UdsResp.lean`.
@@ -538,9 +539,8 @@ theorem construct_wf (cls : String) (f : Fields) (r : Resp) (h : construct cls f
 
 /-- for every class and every field valuation the constructor accepts, the parser reads the constructed PDU back as
     exactly the constructed object (same constructor, same field values), and re-serialising gives the same bytes.
-    Full statement `construct_exposes` (`exposed r = some f` for calls in the form `_from_pdu` uses, `Fields.Canon f`)
-    is not proved in Lean; the tie compares the object's own attributes with the parsed-back ones on every
-    canonical call. -/
+    `construct_exposes` (below) adds `exposed r = some f` for calls in the form `_from_pdu` uses (`Fields.Canon f`); the
+    tie compares the object's own attributes with the parsed-back ones on every canonical call as well. -/
 theorem construct_pdu_parses_back (cls : String) (f : Fields) (r : Resp) (h : construct cls f = some r) :
     decodeResp (encodeResp r) = .ok r := decodeResp_encodeResp r (construct_wf cls f r h).1
 
@@ -725,5 +725,44 @@ example : fromPduE registry[27] [0x71, 0x01, 0x12, 0x34, 0xAA] = .error .subFunc
   simp [fromPduE, registry, lenGate, subGate]
 example : parseStaticE registry[26] [0x7F, 0x31, 0x11] = .ok (.neg 0x31 0x11) := by
   simp [parseStaticE, fromPduE, negEntry, lenGate, subGate, parseKind, pNeg, nrcTable]
+
+/-! ### the constructor side, completed: the object built from fields `f` exposes exactly `f` -/
+
+/-- **construct_exposes**: for every class and every canonical constructor call (the form `_from_pdu` itself uses: one
+    identifier / one record, explicit format bytes, tuple + one-entry mapping) that the constructor accepts, the constructed
+    object exposes exactly the field values it was built from - all 21 constructor forms. With `construct_pdu_parses_back`:
+    build → serialise → parse → read the attributes gives back the arguments. -/
+theorem construct_exposes (cls : String) (f : Fields) (r : Resp) (h : construct cls f = some r) (hc : f.Canon) :
+    exposed r = some f := by
+  obtain ⟨e, _, _, hE⟩ := construct_entry h
+  exact constructE_exposes hE hc
+
+/-- the InputOutputControlByIdentifier convenience classes expose the identifier and their control parameter followed by
+    the control states -/
+theorem construct_conv_exposes (cls : String) (p : Nat) (did : Int) (states : Bytes) (r : Resp)
+    (hp : convClasses.find? (fun q => q.1 == cls) = some (cls, p)) (h : constructConv cls did states = some r) :
+    exposed r = some (.iocbi did (UInt8.ofNat p :: states)) := by
+  unfold constructConv at h
+  rw [hp] at h
+  exact construct_exposes _ _ r h trivial
+
+/-- canonical calls are determined by the bytes they put on the wire: two accepted canonical calls (any classes) with the
+    same PDU have the same field values -/
+theorem construct_canon_injective (c₁ c₂ : String) (f₁ f₂ : Fields) (r₁ r₂ : Resp)
+    (h₁ : construct c₁ f₁ = some r₁) (h₂ : construct c₂ f₂ = some r₂) (k₁ : f₁.Canon) (k₂ : f₂.Canon)
+    (hb : encodeResp r₁ = encodeResp r₂) : f₁ = f₂ := by
+  have e₁ := construct_pdu_parses_back c₁ f₁ r₁ h₁
+  have e₂ := construct_pdu_parses_back c₂ f₂ r₂ h₂
+  rw [hb] at e₁
+  rw [e₁] at e₂
+  cases e₂
+  have x₁ := construct_exposes c₁ f₁ r₁ h₁ k₁
+  have x₂ := construct_exposes c₂ f₂ r₁ h₂ k₂
+  rw [x₁] at x₂
+  cases x₂; rfl
+
+example : construct "WriteMemoryByAddressResponse" (.wmba 0x1234 1 (some 0x12)) = some (.wmba 0x12 0x1234 1) ∧
+    exposed (.wmba 0x12 0x1234 1) = some (.wmba 0x1234 1 (some 0x12)) ∧ (Fields.wmba 0x1234 1 (some 0x12)).Canon := by
+  refine ⟨by decide, rfl, by simp [Fields.Canon]⟩
 
 end Gallia.C02
